@@ -8,7 +8,7 @@ CODEGEN_FNS = ["CodegenCtx._generate_feed_implementation", "CodegenCtx._generate
                "CodegenCtx._generate_free_implementation", "CodegenCtx._generate_code_for_int_expr", "CodegenCtx._generate_set_string", "CodegenCtx._escape_string"]
 
 SPECS = {
-    "C06": dict(families={"refine", "endfx"}, level="translation_validation",
+    "C06": dict(families={"refine", "endfx", "coherence"}, level="translation_validation",
                 text="Per emitted program: for every state, every byte class (all 256 bytes partitioned by the transition the DFA selects) and end-of-input, for symbolic data, "
                      "the C block of that state is proved to perform exactly the step the abstract machine prescribes for the DFA transition: same next state, same output values "
                      "(buffers as arrays), same hook calls with the same argument and the same visible outputs, same consumption, same result code; start() equals the initial configuration."),
